@@ -915,7 +915,7 @@ class NetworkGraph(AbstractBaseIR):
                                     sv_flat = f'{_de_lhs_var(_lhs)}_edge{i}_flat'
                                     eqs.append(f"{sv_flat}' = flatten1d({_rhs_s})")
                                 else:
-                                    expr_map[_lhs] = _rhs_s
+                                    expr_map[_lhs] = f"({_rhs_s})"
                             last_out = _od.get('output')
 
                         final_expr = expr_map.get(last_out, last_out)
@@ -923,12 +923,27 @@ class NetworkGraph(AbstractBaseIR):
 
                     else:
                         # case 0b: non-dynamic (algebraic) edge — inline and reduce
+                        # constants of the edge operators become arguments of the target operator (as in case 0c)
+                        for _ok in edge_ir.op_graph.nodes:
+                            for vk, vi in edge_ir.op_graph.nodes[_ok].get('variables', {}).items():
+                                vi_dict = vi if isinstance(vi, dict) else {}
+                                if vi_dict.get('vtype', 'constant') == 'constant' and vk not in edge_var_map:
+                                    const_name = f'{vk}_edge{i}'
+                                    val = vi_dict.get('value', 0.0)
+                                    if isinstance(val, list):
+                                        val = val[0]
+                                    args[const_name] = {
+                                        'vtype': 'constant', 'dtype': 'float',
+                                        'value': float(val), 'shape': (1,),
+                                    }
+                                    expr_map[vk] = const_name
                         last_out = None
                         for _ok in topological_sort(edge_ir.op_graph):
                             _od = edge_ir.op_graph.nodes[_ok]
                             for _eq in _od.get('equations', []):
                                 _lhs, _rhs = (_s.strip() for _s in _eq.split('=', 1))
-                                expr_map[_lhs] = _subst(_rhs, expr_map)
+                                # an inlined intermediate keeps its own parentheses
+                                expr_map[_lhs] = f"({_subst(_rhs, expr_map)})"
                             last_out = _od.get('output')
 
                         final_expr = expr_map.get(last_out, last_out)
